@@ -23,6 +23,7 @@ import (
 	"fmt"
 	"net/url"
 	"strconv"
+	"sync"
 	"time"
 
 	"github.com/ProtonMail/go-crypto/openpgp"
@@ -36,6 +37,9 @@ import (
 )
 
 var common *pflag.FlagSet
+
+// pflag sorts a FlagSet lazily inside VisitAll, so visiting a shared set is a write
+var visitMu sync.Mutex
 
 func init() {
 	common = pflag.NewFlagSet("common", pflag.ExitOnError)
@@ -104,6 +108,8 @@ func (v *FlagValues) mergeAll(defs *pflag.FlagSet, getter func(string) string) {
 }
 
 func (v *FlagValues) mergeSet(defs *pflag.FlagSet, getter func(string) string) {
+	visitMu.Lock()
+	defer visitMu.Unlock()
 	defs.VisitAll(func(flag *pflag.Flag) {
 		value := getter(flag.Name)
 		if value != "" {
